@@ -33,8 +33,43 @@ FUZZ_SECONDS = 240  # per process, thorough tier only
 FUZZ_MODULES = ["rope.base.codeanalyze", "rope.base.simplify", "rope.base.worder"]
 
 
+@st.composite
+def chain_texts(draw):
+    """dotted chains through calls and subscripts whose brackets hold every kind of bracketed or quoted thing: what the
+    backward scan of get_primary_at has to jump over as a whole"""
+    inner = ["1", "x", "'s)'", '"]"', "...", "{'k': 1}", "{1, 2}", "[1, (2, 3)]", "(a, b)", "g(y)", "{k: v for k, v in q}", "{e for e in q}",
+             "[e for e in q if e]", "(e for e in q)", "f'{x}[]'", "key={1: 2}", "*rest", "**kw", "lambda p: p[0]", "a if b else c", "x[1:2, ...]"]
+    lines = []
+    for n in range(draw(st.integers(1, 4))):
+        chain = draw(st.sampled_from(["make", "obj", "pkg.mod", "self"]))
+        for _ in range(draw(st.integers(1, 4))):
+            kind = draw(st.sampled_from(["call", "call", "sub", "attr"]))
+            if kind == "attr":
+                chain += draw(st.sampled_from([".attr", ".b", " . c"]))
+            else:
+                args = [draw(st.sampled_from(inner)) for _ in range(draw(st.integers(0, 3)))]
+                if kind == "sub":
+                    args = [a_ for a_ in args if "=" not in a_ and not a_.startswith("*") and " for " not in a_.strip("[](){}") or a_[0] in "[{("] or ["0"]
+                    args = [a_ for a_ in args if not a_.startswith(("key=", "*", "(e for"))] or ["0"]
+                    chain += "[" + ", ".join(args) + "]"
+                else:
+                    # keywords last, a bare generator only on its own
+                    pos = [a_ for a_ in args if not a_.startswith(("key=", "**"))]
+                    if any(a_.startswith("(e for") for a_ in pos) and len(args) > 1:
+                        pos = [a_ for a_ in pos if not a_.startswith("(e for")]
+                    star = [a_ for a_ in pos if a_.startswith("*")]
+                    pos = [a_ for a_ in pos if not a_.startswith("*")] + star[:1]
+                    kws = [a_ for a_ in args if a_.startswith("key=")][:1] + [a_ for a_ in args if a_.startswith("**")][:1]
+                    sep = draw(st.sampled_from([", ", ",", ",\n      "]))
+                    chain += "(" + sep.join(pos + kws) + ")"
+        chain += draw(st.sampled_from([".tail", ".unwrap", " .last"]))
+        lines.append(draw(st.sampled_from(["r%d = %s", "print(%s)" if False else "r%d = [%s]", "if %s: pass" if False else "r%d = (%s)"])) % (n, chain))
+    return "\n".join(lines) + "\n"
+
+
 def strategy(tier):
     return st.one_of(
+        chain_texts().map(lambda s: {"src": s if srcgen.compiles(s) else "x = 1\n", "from": "chains"}),
         srcgen.grammar().map(lambda s: {"src": s, "from": "grammar"}),
         srcgen.grammar().map(lambda s: {"src": s, "from": "grammar"}),
         srcgen.soup().map(lambda s: {"src": s, "from": "soup"}),
